@@ -1,5 +1,6 @@
 mod admin;
 mod groups;
+mod hl;
 mod inst;
 mod journal;
 mod perm;
